@@ -28,11 +28,15 @@ package taskfile
 //@ ghost var recFailed bool scratch
 //@ ghost var locFailed bool scratch
 //@ func (*Reader).include$1$1
+// the vars of an include statement are resolved - templates and refs alike - while the include is read, against the
+// variables of the INCLUDING Taskfile: a value taken from the parent never turns into the like-named variable of the
+// included file (or of the command line) later on
+//@   site templater.ReplaceVars#0 requires arg0 == include.Vars                                                       [C10]
 //@   init recFailed := false
 //@   init locFailed := false
 //@   site NewNode#1 ghost locFailed := result.1 != nil
 //@   site (*Reader).include#1 ghost recFailed := result != nil
-//@   ensures recFailed ==> result != nil      -- optional excuses a MISSING file only: whatever goes wrong inside an included file (not trusted, cycle, bad version) is reported   [C08,C20,C16]
+//@   ensures recFailed ==> result != nil      -- optional excuses a MISSING file only: whatever goes wrong inside an included file (not trusted, cycle, bad version) is reported   [C08,C20,C16,C09]
 //@   ensures locFailed && !include.Optional ==> result != nil                                                          [C08]
 
 // ---- C20: remote Taskfiles ---------------------------------------------------------------------------------
